@@ -165,7 +165,7 @@ func daoAmountClass(r *rand.Rand, bal sdkmath.Int) (sdkmath.Int, string) {
 func TestC12(t *testing.T) {
 	r := report.Start("C12")
 	defer r.Finish()
-	nseq := r.Pick(320, 16000)
+	nseq := r.Cases(320, 16000)
 	for i := 0; i < nseq; i++ {
 		id := fmt.Sprintf("seq/%d", i)
 		if !r.Want(id, i) {
